@@ -634,7 +634,8 @@ def apply_edit(rng, world, kind):
 # ---------------------------------------------------------------------------------------------
 
 class UniverseCheck(object):
-    """faithful / prefixFaithful / sorted / lineBound / paramNames / noCtxParam / varsInj on the generated versions"""
+    """faithful / prefixFaithful / sorted / lineBound / paramNames / noCtxParam / varsInj on the generated versions;
+    `keeps_on_data_functions` counts the generated keeps outside `World.keepsPlain`"""
 
     def __init__(self):
         self.by_lines = {}
@@ -642,6 +643,8 @@ class UniverseCheck(object):
         self.values = {}
         self.problems = []
         self.functions = 0
+        # outside `World.keepsPlain` (hypothesis of the theorems with loads): an explicit keep applied to a data function
+        self.keeps_on_data_functions = 0
 
     @staticmethod
     def _code(f):
@@ -649,8 +652,12 @@ class UniverseCheck(object):
                            [n for (n, _) in f["vars"]]], sort_keys=True)
 
     def add_world(self, mworld, hash_fn=None):
+        by_name = dict((f["name"], f) for f in mworld["funs"])
         for f in mworld["funs"]:
             self.functions += 1
+            for it in f["items"]:
+                if it["k"] == "keep" and by_name.get(it.get("f"), {}).get("store_path") is not None:
+                    self.keeps_on_data_functions += 1
             key = tuple(f["lines"])
             code = self._code(f)
             if self.by_lines.setdefault(key, code) != code:
